@@ -139,6 +139,10 @@ func (e *Engine) registerIntrinsics() {
 		}
 		return args[1]
 	})
+	e.reg(v+"And", func(fr *frame, args []value) value { return symAnd(args[0], args[1]) })
+	e.reg(v+"Or", func(fr *frame, args []value) value { return symOr(args[0], args[1]) })
+	e.reg(v+"Not", func(fr *frame, args []value) value { return symNot(args[0]) })
+	e.reg(v+"Implies", func(fr *frame, args []value) value { return symOr(symNot(args[0]), args[1]) })
 	e.reg(v+"Symbolic", func(fr *frame, args []value) value { return true })
 	e.reg(v+"Panics", func(fr *frame, args []value) (res value) {
 		defer func() {
